@@ -3,9 +3,13 @@ Proof: NV/Props/Properties_C09.v (generic loop theorem; loop summaries + call gr
 parser-model hang witnesses; tokenizer model).
 Correspondence / robustness: probes/front_probe.c built with ASan+UBSan (real tokenize, parse_program, type_check, every input in
 a forked child under a wall-clock limit) on mutants, truncations and nesting ladders; tokenizer model vs real tokenize token for
-token; nano_virt (ASan) --emit-nvm on a sample (adds import processing)."""
-import os, json, glob, hashlib, tempfile, shutil, re
+token; nano_virt (ASan) --emit-nvm on a sample (adds import processing).
+Two further streams (tools/props/c09_streams.py): "numeric positions" (boundary numerals in every position where the front end converts
+a numeral; ASan probe + plain probe + plain nano_virt) and "module graphs" (multi-file programs through the real nano_virt / nanoc, plain
+and ASan, bounded stack; generated import graphs also through the import-loader model NV.Front.ImportGraph)."""
+import os, json, glob, hashlib, tempfile, shutil, re, time
 import vlib, frontlib as fl
+import c09_streams as cs
 
 SEED_DIRS = ['tests', 'examples/language', 'tests/user_guide']
 
@@ -242,7 +246,10 @@ def run(ck):
     nt, nb, ntf = (6000, 6000, 12) if ck.thorough else (1300, 1300, 3)
     cases += [('seed:' + n, b) for n, b in pool[:(200 if ck.thorough else 60)]]
     cases += mutants(ck, probes['plain'], pool, nt, nb, ntf)
-    freqs = [('front', 800, b) for _, b in cases]
+    # ---- numeric positions: boundary numerals wherever the front end converts a numeral / uses it as an index
+    ncases = cs.numeric_cases(ck)
+    cases += ncases
+    freqs = [('front', 3000 if t.startswith('numeric') else 800, b) for t, b in cases]
     ans = fl.run_probe(probes['asan'], freqs, jobs=14)
     # a limit that fired before the parser was even entered (no frame of the repository on the stack) is the machine, not the code
     ans, retried = fl.confirm_hangs(probes['asan'], freqs, ans,
@@ -254,6 +261,7 @@ def run(ck):
         dist[tag.split(':')[0]] = dist.get(tag.split(':')[0], 0) + 1
         ck.count(('front', b), nontrivial=not tag.startswith('seed'))
         judge(ck, side, probes, tag, b, a, stats, recheck)
+    numeric_verdicts = {t: fl.split_answer(a)[0].split(' ')[0] for (t, b), a in zip(cases, ans) if t.startswith('numeric')}
     # ---- nesting ladders
     depths = [10, 100, 999, 1001, 10000, 100000] if ck.thorough else [10, 999, 1001, 100000]
     lcases = []
@@ -302,6 +310,13 @@ def run(ck):
     model_witnesses(ck, ref, probes['plain'])
     # ---- the real command line tool on a sample (adds import processing and code generation)
     nano_virt_sample(ck, cases, lcases)
+    # ---- numeric positions again: the uninstrumented build (probe and real tool)
+    t0 = time.time()
+    numeric_plain(ck, side, probes, ncases, numeric_verdicts)
+    t1 = time.time()
+    # ---- module graphs through the real tools + the import-loader model
+    cs.run_module_graphs(ck, ref)
+    ck.extra['stream_seconds'] = dict(numeric_positions_plain=round(t1 - t0, 1), module_graphs=round(time.time() - t1, 1))
     # ---- replay of the open known findings
     for e in ck.known:
         if e.get('latent'):
@@ -317,7 +332,9 @@ def run(ck):
                     ck.fail(e['key'], e.get('what', ''), dict(flagged_by='loop summary', loop=e['loop'], paths=l.get('paths')))
     ck.cov['rule'] = ('front end (real tokenize + parse_program + type_check, ASan+UBSan, forked per input, wall-clock limit) on: seed programs from '
                       '/repo/tests and /repo/examples/language, token-level mutants (delete/insert/replace/duplicate 1-3 tokens), byte-level mutants, '
-                      'truncation at every token boundary, 20 nesting ladders x depths; every answer must be accept or reject-with-diagnostic; '
+                      'truncation at every token boundary, 20 nesting ladders x depths, numeric positions (templates x boundary numerals, also plain probe '
+                      'and plain nano_virt); every answer must be accept or reject-with-diagnostic; module graphs (named scenarios + random import graphs) '
+                      'through nano_virt --emit-nvm and nanoc, plain and ASan, 8 MB stack: exit 0, or a diagnostic with a non-zero non-crash status; '
                       'non-trivial = not an unmodified seed; distinct = distinct input bytes')
     ck.extra['exhaustive'] = False
     ck.extra['front_outcomes'] = stats
@@ -334,11 +351,46 @@ def run(ck):
                    'translators gen_tokens.py / gen_parserconsts.py', 'extraction ExtrOcamlBasic only; extract/nvio.ml + c09_driver.ml',
                    'probes/front_probe.c (fork per input, SIGALRM / alternate-stack fatal-signal handlers print the stack as module offsets; addr2line resolves them)',
                    'attribution of a hang / stack overflow to a loop / recursive function by the innermost matching stack frame',
-                   'the C07 correspondence for NV.Front.ExprParser (theorems C09_prefix_arg_loop_hangs, C09_depth_limit_reported_refuted)']
+                   'the C07 correspondence for NV.Front.ExprParser (theorems C09_prefix_arg_loop_hangs, C09_depth_limit_reported_refuted)',
+                   'tools/props/c09_streams.py: classification of a tool run by exit status / signal / sanitizer text; prlimit for the stack bound; '
+                   'NANO_CC=true replaces the C compiler behind nanoc']
     ck.assumptions += ['the parser as a whole is not modelled: loops and recursion structure (generated summaries) + the expression fragment',
-                       'type checker and import processing: exercised by the robustness runs only',
+                       'type checker: exercised by the robustness runs only; import processing: model of the loader + cache over abstract graphs '
+                       '(path resolution, the bodies of modules and the "failed import is ignored" defect of the pinned tree are not modelled: graphs '
+                       'generated for the comparison have a missing file only when they are acyclic)',
                        'stack overflow that occurs only under ASan frame inflation is recorded as a note, not as a violation',
                        'advance() moves the cursor by one unless it is on the last token; exactly one EOF token, at the end (C09_tokenize_shape)']
+
+
+def numeric_plain(ck, side, probes, ncases, asan_verdicts):
+    reqs = [('front', 3000, b) for _, b in ncases]
+    ans = fl.run_probe(probes['plain'], reqs, jobs=8)
+    ans, _ = fl.confirm_hangs(probes['plain'], reqs, ans, lambda r, a: True, factor=6)
+    st, rc, pv, noisy = {}, [], {}, {}
+    for (tag, b), a in zip(ncases, ans):
+        ck.count(('front-plain', b), nontrivial=True)
+        pv[tag] = fl.split_answer(a)[0].split(' ')[0]
+        if pv[tag] == 'accept' and fl.split_answer(a)[1]:
+            noisy[tag] = 1
+        judge(ck, side, probes, tag + ':plain', b, a, st, rc)
+    for tag, src, v, err in rc:
+        frames = fl.resolve_stack(probes['plain'], v, err)
+        top = ['%s:%s' % (f[0], f[2]) for f in frames[:6]]
+        ck.fail('c09:%s:%s' % (v.split(' ')[0], hashlib.sha256(src).hexdigest()[:12]),
+                'front end (plain build) %s on %s: %s' % (v.split(' ')[0], tag, ' <- '.join(top) or err[:200]),
+                dict(source_hex=src.hex() if len(src) < 200000 else None, origin=tag, observed=v[:300], stack=top, engine='front_probe(plain) front'))
+    tool = cs.numeric_real_tool(ck, ncases, pv)
+    # accepted although the numeral does not fit the type it is converted to (the index silently wraps): recorded, not a C09 matter
+    wraps = sorted(t for t, v in pv.items() if v == 'accept' and t not in noisy and t.split(':')[1].startswith('tidx') and
+                   re.fullmatch(r'-?\d{10,}', t.split(':')[2] or '') and abs(int(t.split(':')[2])) >= 2 ** 31)
+    differ = sorted(t for t in pv if asan_verdicts.get(t) in ('accept', 'reject') and pv[t] in ('accept', 'reject') and asan_verdicts[t] != pv[t])
+    rep = cs.numeric_sites_report()
+    ck.extra['numeric_sites'] = rep['sites']
+    ck.extra['numeric_positions'] = dict(templates=rep['templates'], pool=rep['pool'], inputs=len(ncases), templates_without_site=rep['templates_without_site'],
+                                         plain_probe_outcomes=st, plain_nano_virt_outcomes=tool,
+                                         accepted_with_output_on_stderr=dict(count=len(noisy), note='warnings, or errors that the type checker prints without failing (the latter: '
+                                                                             'subject of C04/C05; nano_virt then exits 0, counted as error-exit0 above)'), asan_vs_plain_verdict_differs=differ[:10],
+                                         tuple_index_wrapped_and_accepted=wraps[:12])
 
 
 def build_from_summaries(ck, side, probes):
@@ -509,6 +561,8 @@ def replay_entry(ck, probes, e):
 
 
 def replay(ck, d):
+    if d.get('tool') and (d.get('files') or d.get('scenario')):
+        return cs.replay_modules(ck, d)
     ck.build('plain'); ck.build('asan'); ck.gen(['gen_tokens', 'gen_parserconsts', 'gen_parserloops'])
     probes = dict(asan=ck.probe('front_probe.c', 'asan'), plain=ck.probe('front_probe.c', 'plain'))
     if d.get('correspondence', '').startswith('front_probe lex'):
